@@ -298,8 +298,8 @@ func (h *indexedBinomial[K, V]) IsEmpty() bool {
 
 // Insert adds a new key-value pair to the heap.
 func (h *indexedBinomial[K, V]) Insert(i int, key K, val V) bool {
-	// ContainsIndex validates the index too.
-	if h.ContainsIndex(i) {
+	// Reject an index that is out of range or already on the heap.
+	if i < 0 || i >= len(h.nodes) || h.ContainsIndex(i) {
 		return false
 	}
 
